@@ -71,6 +71,8 @@ func emitHDL(m *procbuilder.Machine, src []string, opt bool) {
 				}
 				for _, op := range m.Arch.Op {
 					if op.Op_get_name() == f[0] {
+						// as basm's matcherResolver does: the opcode is added to the section's set first
+						rg.Requirement(bmreqs.ReqRequest{Node: node, T: bmreqs.ObjectSet, Name: "opcodes", Value: f[0], Op: bmreqs.OpAdd})
 						func() {
 							defer func() { recover() }()
 							op.HLAssemblerNormalize(&m.Arch, rg, node, bl)
